@@ -466,3 +466,7 @@ for _k in ["normal", "promotion", "enpassant", "castling_short", "castling_long"
     ob("spec_apply_preserves_wf_" + _k, "chess::verif_chess::spec_apply_preserves_wf_" + _k, ["C02", "C01"],
        f"rules only ({_k} moves): WF6 and the number of kings are preserved by spec::apply for every move of push's shape precondition (induction step behind `sequences of any length`)",
        ["spec::apply (lemma)"], timeout=1200)
+ob("native_display_and_record", "chess::verif_chess::fen::native_display_and_record", ["C20"],
+   "TEST (native, concrete): Display (Hash/Fen/PGN lines, diagram rank 8 first with every glyph) and get_pgn vs the specified record on an 18-ply game with captures, e.p., under-promotion, both castlings",
+   ["Display for Game", "Game::get_pgn (whole functions, concrete inputs)"], backend="native", complete=False, counts_as_proof=False,
+   bounded_note="concrete native run of the glue; not a proof")
